@@ -17,13 +17,13 @@ import numpy as np
 
 from .. import taps
 from ..ctx import Skip, digest
-from ..snap import snap, obs_digest
+from ..snap import snap, obs_digest, any_digest
 from ..ref import dense, gls, implicit
 
 ID = 'C08'
 LEVEL = 'exploration'
 DECIDING = ['tap:least_squares', 'tap:total_least_squares', 'stationarity_judged', 'sensitivities_judged', 'refit_experiments_judged', 'tls_limit_judged', 'fit_lin_judged',
-            'stored_state_monitored', 'alias_cases_judged', 'histories_judged', 'scale_pairs_judged', 'options_judged', 'boundary_cases_judged']
+            'stored_state_monitored', 'alias_cases_judged', 'spectator_parameters_judged', 'arguments_monitored', 'histories_judged', 'scale_pairs_judged', 'options_judged', 'boundary_cases_judged']
 RULE = ('cases: models a exp(-b x), c exp(-b x), a exp(-b x) + c, a cosh(b (x - c)), (a + b x)/(1 + c x), two exponentials, two models with '
         'two-dimensional x and a combined fit sharing a parameter; 1-4 parameters, k+1..k+6 points, relative errors 1e-3..3e-2, each point on its '
         'own ensemble or all on a shared one (AR noise, common mode), least_squares uncorrelated / estimated correlation / supplied factor, with '
@@ -44,7 +44,7 @@ ASSUMPTIONS = ['the implicit-function rule is judged at the point the minimiser 
                'sizes disagree by more than 1e-4, or by more than 10 / cond(H), are discarded',
                'num_grad (numdifftools probes steps up to > 100% of the arguments) is judged for the rational models only where every denominator lies in [0.5, 10] (measured accuracy there < 2e-7; 1e-5 at 0.25; lost at 0.17) - next to a pole is not a smooth region',
                'replica means of the fitted parameters are not part of the property']
-BUDGET = {'quick': 40, 'thorough': 480}
+BUDGET = {'quick': 36, 'thorough': 480}
 
 PE = None
 ANP = None
@@ -90,14 +90,17 @@ def install_judgement_counters(ctx):
 
     def close(got, exp, mechanism, *args, **kw):
         ctx.count('judged:' + family(mechanism))
+        ctx.count('judged-field:' + mechanism.split(':')[-1])
         return c_close(got, exp, mechanism, *args, **kw)
 
     def equal(got, exp, mechanism, *args, **kw):
         ctx.count('judged:' + family(mechanism))
+        ctx.count('judged-field:' + mechanism.split(':')[-1])
         return c_equal(got, exp, mechanism, *args, **kw)
 
     def require(cond, mechanism, detail=None):
         ctx.count('judged:' + family(mechanism))
+        ctx.count('judged-field:' + mechanism.split(':')[-1])
         return c_require(cond, mechanism, detail)
     ctx.close, ctx.equal, ctx.require = close, equal, require
 
@@ -143,9 +146,9 @@ def teardown(ctx):
 
 
 def plan(tier):
-    m = 1 if tier == 'quick' else 30
-    return [('ls', 240 * m), ('tls', 80 * m), ('tls_limit', 40 * m), ('fit_lin', 24 * m), ('alias', 40 * m), ('history', 36 * m), ('scale', 54 * m),
-            ('options', 42 * m), ('boundary', 24 * m)]
+    m = 1 if tier == 'quick' else 20
+    return [('ls', 220 * m), ('tls', 80 * m), ('tls_limit', 60 * m), ('fit_lin', 60 * m), ('alias', 72 * m), ('history', 54 * m), ('scale', 60 * m),
+            ('options', 170 * m), ('boundary', 110 * m), ('spectator', 54 * m)]
 
 
 # ------------------------------------------------------------------------------------------
@@ -265,14 +268,29 @@ class class_state:
             d_.update(v)
 
 
-def guarded(ctx, inputs, mech, perturb, call):
-    """call() runs one fit; its inputs (data and stored analysis) and the class-level parameters must be what they were, and the
-    result must not share fluctuation arrays with the inputs or between parameters."""
+def arguments_digest(args):
+    """Containers handed to the library (arrays, lists, tuples, the supplied matrix, the initial guess, dictionaries with key order)."""
+    def d(v):
+        if isinstance(v, dict):
+            return [(repr(k_), d(w)) for k_, w in v.items()]
+        if callable(v):
+            return id(v)
+        return any_digest(v)
+    return [d(v) for v in args]
+
+
+def guarded(ctx, inputs, mech, perturb, call, args=None):
+    """call() runs one fit; its inputs (data and stored analysis), the containers it was given and the class-level parameters must be
+    what they were, and the result must not share fluctuation arrays with the inputs or between parameters."""
     inputs = unique(inputs)
     before = [analysis_digest(o) for o in inputs]
+    abefore = arguments_digest(args) if args is not None else None
     with class_state(inputs, perturb) as cs:
         res = call()
     after = [analysis_digest(o) for o in inputs]
+    if args is not None:
+        ctx.require(arguments_digest(args) == abefore, mech + ':arguments-changed-by-fit', None)
+        ctx.count('arguments_monitored')
     changed = [i for i, (a_, b_) in enumerate(zip(before, after)) if a_ != b_]
     ctx.ev()
     if changed:
@@ -508,6 +526,8 @@ def run_ls(ctx, idx, rng):
         k = M['k']
         ptrue = np.array(M['ptrue'](rng))
     n = k + int(rng.integers(1, 7))
+    if not pair and o['weights'] != 'estimated' and rng.random() < 0.06:
+        n = int(rng.integers(12, 31))                # more than 10 points
     if pair:
         na = int(rng.integers(2, n - 1)) if n > 3 else 2
         n = max(n, na + 2)
@@ -528,7 +548,7 @@ def run_ls(ctx, idx, rng):
     rel = float(rng.choice([1e-3, 1e-2, 3e-2]))
     nconf = int(rng.integers(max(40, 6 * n), max(80, 6 * n) + 1))
     tau = float(rng.choice([0, 0, 2]))
-    names = [str(e) for e in rng.permutation(ENS_NAMES)[:n]]
+    names = [str(e) for e in rng.permutation(ENS_NAMES + ['Q%d' % i for i in range(max(0, n - len(ENS_NAMES)))])[:n]]
     ys = make_obs_list(rng, means, rel, o['shared'], names, nconf, tau)
     S = analyse(rng, ys)
     # priors
@@ -559,7 +579,7 @@ def run_ls(ctx, idx, rng):
         L = np.diag(1.0 / dy)
     elif o['weights'] == 'estimated':
         corr = gls.corr_from_snapshots(snaps)
-        if not np.all(np.isfinite(corr)) or np.linalg.cond(corr) > 1e8:
+        if not np.all(np.isfinite(corr)) or np.linalg.cond(corr) > 1e8 or not np.linalg.eigvalsh(corr)[0] > 1e-9:
             raise Skip()
         L = np.linalg.cholesky(gls.weights_from_corr(corr, dy)).T
         kw['correlated_fit'] = True
@@ -962,7 +982,8 @@ def build_ls(ctx, rng, name, method='Levenberg-Marquardt', num_grad=False, weigh
                 Lsup=Lsup, guess=ptrue * (1 + 0.03 * rng.normal(size=k)), pscale=np.ones(k), extra_kw={}, xform='ndarray')
 
 
-def ls_call(P):
+def ls_args(P):
+    """(x, y, func, priors, keyword arguments) exactly as handed to least_squares; built once so that the same objects can be used twice."""
     kw = dict(P['extra_kw'])
     if P['weights'] != 'diag':
         kw['correlated_fit'] = True
@@ -973,32 +994,38 @@ def ls_call(P):
     if P['num_grad']:
         kw['num_grad'] = True
     kw['initial_guess'] = [float(v) for v in P['guess']]
-    silent = kw.pop('silent', True)
+    kw.setdefault('silent', True)
     priors = {m: v for m, _, v in P['spec']} if P['spec'] else None
-    x = P['x']
+    x = np.array(P['x'], dtype=float)
     if P['xform'] == 'list':
         x = x.tolist()
     elif P['xform'] == 'tuple':
         x = tuple(x.tolist()) if x.ndim == 1 else tuple(tuple(r) for r in x.tolist())
-    y = P['ys']
+    y = list(P['ys'])
     if P['xform'] == 'tuple':
         arr = np.empty(2 * len(y), dtype=object)
         arr[::2] = list(y)
         y = arr[::2]
+    return [x, y, P['M']['lib'], priors, kw]
+
+
+def ls_run(a):
+    x, y, f, priors, kw = a
     try:
-        return PE.fits.least_squares(x, y, P['M']['lib'], priors=priors, silent=silent, **kw)
+        return PE.fits.least_squares(x, y, f, priors=priors, **kw)
     except Exception as e:
         if 'did not converge' in str(e) or 'Cannot invert hessian matrix' in str(e):
             return None
         raise
 
 
-def hard_ls(ctx, P, mech, what, perturb=False, cond_ref=None):
+def hard_ls(ctx, P, mech, what, perturb=False, cond_ref=None, args=None):
     """Fit (with the stored-state monitors) and judge views (i) and (ii) of a least_squares problem."""
     ys, spec, k, n = P['ys'], P['spec'], P['k'], P['n']
     dy = np.array([float(v.dvalue) for v in ys])                         # weights present at call time
     perr = [float(v.dvalue) for _, _, v in spec]
-    res = guarded(ctx, list(ys) + [v for _, _, v in spec], mech, perturb, lambda: ls_call(P))
+    args = args if args is not None else ls_args(P)
+    res = guarded(ctx, list(ys) + [v for _, _, v in spec], mech, perturb, lambda: ls_run(args), args=args)
     if res is None:
         ctx.count('not_converged:' + P['method'])
         return None
@@ -1009,7 +1036,7 @@ def hard_ls(ctx, P, mech, what, perturb=False, cond_ref=None):
         L = np.diag(1.0 / dy)
     elif P['weights'] == 'estimated':
         corr = gls.corr_from_snapshots(snaps)
-        if not np.all(np.isfinite(corr)) or np.linalg.cond(corr) > 1e8:
+        if not np.all(np.isfinite(corr)) or np.linalg.cond(corr) > 1e8 or not np.linalg.eigvalsh(corr)[0] > 1e-9:
             raise Skip()
         L = np.linalg.cholesky(gls.weights_from_corr(corr, dy)).T
     else:
@@ -1070,12 +1097,12 @@ def tls_data(rng, P):
     return P
 
 
-def tls_call(P):
+def tls_args(P):
     kw = dict(P['extra_kw'])
     kw['initial_guess'] = [float(v) for v in P['guess']]
     if P['num_grad']:
         kw['num_grad'] = True
-    silent = kw.pop('silent', True)
+    kw.setdefault('silent', True)
     xs = P['xs']
     xarg = list(xs[0]) if P['dim'] == 1 else [list(r) for r in xs]
     if P['xform'] == 'tuple':
@@ -1083,15 +1110,20 @@ def tls_call(P):
     elif P['xform'] == 'ndarray':
         xarg = np.array(xarg, dtype=object)
     yarg = np.array(list(P['ys']), dtype=object) if P['xform'] == 'ndarray' else list(P['ys'])
+    return [xarg, yarg, P['M']['lib'], kw]
+
+
+def tls_run(a):
+    xarg, yarg, f, kw = a
     try:
-        return PE.fits.total_least_squares(xarg, yarg, P['M']['lib'], silent=silent, **kw)
+        return PE.fits.total_least_squares(xarg, yarg, f, **kw)
     except Exception as e:
         if 'did not converge' in str(e) or 'Cannot invert hessian matrix' in str(e):
             return None
         raise
 
 
-def hard_tls(ctx, P, mech, what, perturb=False, cond_ref=None):
+def hard_tls(ctx, P, mech, what, perturb=False, cond_ref=None, args=None):
     k, dim, n, M = P['k'], P['dim'], P['n'], P['M']
     xflat = [o_ for row in P['xs'] for o_ in row]
     xv = np.array([[float(o_.value) for o_ in row] for row in P['xs']])
@@ -1100,7 +1132,8 @@ def hard_tls(ctx, P, mech, what, perturb=False, cond_ref=None):
         xv, dx = xv[0], dx[0]
     yv = np.array([float(o_.value) for o_ in P['ys']])
     dy = np.array([float(o_.dvalue) for o_ in P['ys']])
-    res = guarded(ctx, xflat + list(P['ys']), mech, perturb, lambda: tls_call(P))
+    args = args if args is not None else tls_args(P)
+    res = guarded(ctx, xflat + list(P['ys']), mech, perturb, lambda: tls_run(args), args=args)
     if res is None:
         ctx.count('not_converged:ODR')
         return None
@@ -1119,7 +1152,13 @@ def hard_tls(ctx, P, mech, what, perturb=False, cond_ref=None):
     stol = odr_tol(a['chi2'])
     ctx.ev(len(step))
     if np.any(step > stol):
-        ctx.violation(mech + ':not-stationary', {'what': what, 'newton_step_in_sigma': step, 'tol': stol, 'cond': a['cond']})
+        tag = mech + ':not-stationary'
+        if n == k and 'Sum of squares convergence' in ' '.join(str(m_) for m_ in res.message) and a['chi2'] > 1e-6:
+            # witness: exactly determined problem (the minimum is chi-square = 0), ODRPACK reports sum-of-squares convergence at a point
+            # with chi-square > 0 and a non-zero gradient; restarting ODR from that point reaches the minimum (scipy.odr, not the model)
+            tag = 'tls:dof-0:ODR-reports-convergence-away-from-the-minimum'
+        ctx.violation(tag, {'what': what, 'newton_step_in_sigma': step, 'tol': stol, 'cond': a['cond'], 'chisquare_at_returned_point': a['chi2'],
+                            'message': [str(m_) for m_ in res.message]})
     ctx.count('stationarity_judged')
     ctx.close(res.odr_chisquare, a['chi2'], mech + ':odr_chisquare-at-returned-point', what, rtol=1e-8, scale=max(1.0, a['chi2']))
     ctx.equal(int(res.dof), n - k, mech + ':dof', what)
@@ -1178,8 +1217,39 @@ def clone_problem(rng, P):
 def run_alias(ctx, idx, rng):
     """Checklist item 4: the same Obs as two data points (least squares), as the abscissa of two points, and as abscissa of one
     point and ordinate of another (total least squares). Contributions must add up."""
-    variant = ['ls-same-object-two-points', 'tls-same-x-two-points', 'tls-object-is-x-and-y', 'ls-same-object-two-points'][idx % 4]
-    if variant.startswith('ls'):
+    variant = ['ls-same-object-two-points', 'tls-same-x-two-points', 'tls-object-is-x-and-y', 'ls-spectator-parameter'][idx % 4]
+    if variant == 'ls-spectator-parameter':
+        # checklist item 14: a parameter every call touches (0 * p[m]) but the model ignores; fixed by its prior, in the first / last / a
+        # middle slot; sensitivity exactly 0 to every datum, nothing else may change
+        name = ['exp2', 'expc', 'cosh', 'rat', 'xy', 'ratxy'][(idx // 4) % 6]
+        P = build_ls(ctx, rng, name, method=['Levenberg-Marquardt', 'migrad', 'Levenberg-Marquardt', 'Nelder-Mead'][(idx // 8) % 4],
+                     weights=['diag', 'estimated', 'supplied'][(idx // 4) % 3], priors=['none', 'obs'][(idx // 12) % 2])
+        k0 = P['k']
+        m = [0, k0, int(rng.integers(0, k0 + 1))][(idx // 4) % 3]
+        M0 = P['M']
+        pick = [i for i in range(k0 + 1) if i != m]
+        P['M'] = dict(M0, k=k0 + 1, lib=lambda p, x, M0=M0, pick=pick, m=m: M0['lib']([p[i] for i in pick], x) + 0 * p[m],
+                      ref=lambda p, x, M0=M0, pick=pick: M0['ref'](np.asarray(p)[pick], x))
+        val = float(rng.uniform(0.5, 2.0))
+        err = val * float(rng.uniform(0.05, 0.3))
+        po = PE.Obs([val + err * np.sqrt(40) * rng.normal(size=40)], ['prSpect'])
+        P['S'].update(analyse(rng, [po]))
+        P['spec'] = [(i + (i >= m), kind, v) for i, kind, v in P['spec']] + [(m, 'obs', po)]
+        for key, ins in (('ptrue', val), ('guess', val * 1.02), ('pscale', 1.0)):
+            P[key] = np.insert(np.asarray(P[key], dtype=float), m, ins)
+        P['k'] = k0 + 1
+        P['name'] = name + '+spectator'
+        out = hard_ls(ctx, P, 'alias:' + variant, '%s %s slot %d' % (variant, name, m), perturb=bool(idx % 2))
+        objs = P['ys']
+        if out is not None:
+            got = out['res'].fit_parameters[m]
+            ctx.close(got.value, po.value, 'alias:ls-spectator-parameter:not-equal-to-its-prior', 'slot %d' % m, rtol=0.0,
+                      atol=2 * (lm_tol(out['a']) if P['method'] == 'Levenberg-Marquardt' else LS_VAL_TOL[P['method']]) * float(po.dvalue))
+            unit = float(po.dvalue) * max(float(np.max(np.abs(d_))) / float(v.dvalue) for v in P['ys'] for d_ in v.deltas.values())
+            leak = max([float(np.max(np.abs(got.deltas[n_]))) for n_ in got.deltas if n_ != 'prSpect'] or [0.0]) / unit
+            ctx.require(leak <= 1e-8, 'alias:ls-spectator-parameter:depends-on-data', {'slot': m, 'relative_fluctuation': leak})
+            ctx.count('spectator_parameters_judged')
+    elif variant.startswith('ls'):
         name = ['exp2', 'expc', 'cosh', 'rat', 'xy', 'ratxy'][(idx // 4) % 6]
         P = build_ls(ctx, rng, name, method=['Levenberg-Marquardt', 'migrad'][(idx // 8) % 2], weights=['diag', 'supplied'][(idx // 4) % 2],
                      priors=['none', 'obs'][(idx // 16) % 2], near_duplicate=True)
@@ -1322,19 +1392,23 @@ def run_scale(ctx, idx, rng):
 
 def run_options(ctx, idx, rng):
     """Checklist items 1 and 2: other containers for x and y, output switched on, expected_chisquare, tighter tol: the numbers stay."""
-    variant = ['tls-tuple', 'tls-ndarray', 'tls-expected-chisquare', 'ls-tuple', 'ls-list', 'ls-tol', 'tls-verbose'][idx % 7]
+    # the two variants with a judgement of their own (attribute present, tol forwarded) are drawn five times as often (item 13)
+    variant = (['tls-tuple', 'tls-ndarray', 'ls-tuple', 'ls-list', 'tls-verbose', 'ls-same-arguments-twice', 'tls-same-arguments-twice']
+               + 5 * ['tls-expected-chisquare'] + 5 * ['ls-tol'])[idx % 17]
     tls = variant.startswith('tls')
     if tls:
-        name = ['exp2', 'xy', 'cosh', 'ratxy'][(idx // 7) % 4]
+        name = ['exp2', 'xy', 'cosh', 'ratxy'][(idx // 9) % 4]
         P = tls_data(rng, build_tls(ctx, rng, name))
         engine = hard_tls
     else:
-        name = ['exp2', 'xy', 'rat', 'ratxy', 'expc'][(idx // 7) % 5]
-        P = build_ls(ctx, rng, name, method=['migrad', 'Nelder-Mead', 'Powell'][(idx // 7) % 3] if variant == 'ls-tol' else 'Levenberg-Marquardt',
-                     weights=['diag', 'estimated', 'supplied'][(idx // 14) % 3], priors=['none', 'obs'][(idx // 7) % 2])
+        name = ['exp2', 'xy', 'rat', 'ratxy', 'expc'][(idx // 9) % 5]
+        P = build_ls(ctx, rng, name, method=['migrad', 'Nelder-Mead', 'Powell'][(idx // 9) % 3] if variant == 'ls-tol' else 'Levenberg-Marquardt',
+                     weights=['diag', 'estimated', 'supplied'][(idx // 18) % 3], priors=['none', 'obs'][(idx // 9) % 2])
         engine = hard_ls
     what = 'options %s %s' % (variant, name)
-    base = engine(ctx, P, 'options:base', what + ' base')
+    twice = variant.endswith('same-arguments-twice')
+    shared_args = (tls_args(P) if tls else ls_args(P)) if twice else None      # checklist item 15: the same argument objects in two calls
+    base = engine(ctx, P, 'options:base', what + ' base', args=shared_args)
     if base is None:
         raise Skip()
     Q = dict(P)
@@ -1351,7 +1425,7 @@ def run_options(ctx, idx, rng):
         Q['extra_kw'].update(silent=False)
     elif variant == 'ls-tol':
         Q['extra_kw'].update(tol=1e-6 if P['method'] == 'migrad' else 1e-13)
-    var = engine(ctx, Q, 'options:' + variant, what)
+    var = engine(ctx, Q, 'options:' + variant, what, args=shared_args)
     if var is None:
         raise Skip()
     if variant == 'ls-tol':
@@ -1455,7 +1529,8 @@ def run_case(ctx, kind, idx, rng):
                 ctx.count('not_converged:fit_lin')
                 raise Skip() from None
             raise
-    hard = {'alias': run_alias, 'history': run_history, 'scale': run_scale, 'options': run_options, 'boundary': run_boundary}
+    hard = {'alias': run_alias, 'history': run_history, 'scale': run_scale, 'options': run_options, 'boundary': run_boundary,
+            'spectator': lambda c_, i_, r_: run_alias(c_, 4 * i_ + 3, r_)}
     if kind in hard:
         return hard[kind](ctx, idx, rng)
     if kind == 'ls':
